@@ -172,7 +172,11 @@ func TestC06RefusedChangesNothing(t *testing.T) {
 			s.mu.Unlock()
 			var ownErr error
 			var ownWhat string
-			if isWallet {
+			if isWallet && endpoint == "withdraw" {
+				// the owner's own withdrawal must go through (no minimum is configured, settlement succeeds)
+				ownWhat = "pool_withdraw"
+				ownErr = s.pay.Withdraw(rpcCtx(), mustSign(w.key, "pool_withdraw", w.addr, ownNonce), w.addr, ownNonce)
+			} else if isWallet {
 				ownWhat = "pool_addNode"
 				ownErr = s.pay.AddNode(rpcCtx(), mustSign(w.key, "pool_addNode", w.addr, ownNonce, hostID), w.addr, ownNonce, hostID)
 			} else {
@@ -181,7 +185,7 @@ func TestC06RefusedChangesNothing(t *testing.T) {
 				_, ownErr = s.pool.Update(rpcCtx(), mustSign(victim.key, "vipnode_update", vid, ownNonce, req), vid, ownNonce, req)
 			}
 			if ownErr != nil {
-				rt.Fatalf("after a refused %s (%s, forged nonce now+10min) the legitimate owner %s sent %s with a fresh smaller nonce and was refused: %v (the refused request consumed the nonce)", method, kind, victim.name, ownWhat, ownErr)
+				rt.Fatalf("after a refused %s (%s, forged nonce now+10min) the legitimate owner %s sent %s with a fresh smaller nonce and was refused: %v (the refused request left a trace: a consumed nonce or a lock)", method, kind, victim.name, ownWhat, ownErr)
 			}
 			// "no host connection is registered": the pool must still reach the host on the connection it registered on
 			// (a fresh requester asks for a peer; the whitelist instruction must arrive on the host's own connection)
